@@ -30,6 +30,28 @@ theorem lit_depth1_of_mem {lits : List Lit} (h : depth1Only lits = true) {i : Na
   simp only [depth1Only, List.all_eq_true] at h
   exact h l hm
 
+/-- `Resolve` over a list of names yields one reference per name -/
+theorem resolveNames_length : ∀ (xs : List String) (rs rs' : RS) (refs : List Ref),
+    resolveNames xs rs = .ok (refs, rs') → refs.length = xs.length := by
+  intro xs
+  induction xs with
+  | nil =>
+    intro rs rs' refs h
+    simp only [resolveNames, Except.ok.injEq, Prod.mk.injEq] at h
+    rw [← h.1]
+    rfl
+  | cons x xs ih =>
+    intro rs rs' refs h
+    simp only [resolveNames] at h
+    split at h
+    · cases h
+    · rename_i r rs1 _
+      split at h
+      · cases h
+      · rename_i rl rs2 h2
+        simp only [Except.ok.injEq, Prod.mk.injEq] at h
+        rw [← h.1, List.length_cons, List.length_cons, ih rs1 rs2 rl h2]
+
 end Risor.C02
 
 namespace Risor.C02
